@@ -96,16 +96,15 @@ func (h *mergeHeap) Pop() interface{} {
 func merge(src []*hintFileReader, dst string, ct *CollisionTable, hintState *int, forGC bool) (idx *hintFileIndex, err error) {
 	n := len(src)
 	datasize := uint32(0)
-	hp := make([]*mergeReader, n)
+	hp := make([]*mergeReader, 0, n)
 	for i := 0; i < n; i++ {
 		err := src[i].open()
 		if err != nil {
 			logger.Errorf("%s", err.Error())
 			return nil, err
 		}
-		hp[i] = &mergeReader{src[i], nil}
-		hp[i].curr, err = src[i].next()
-		hp[i].curr.Pos.ChunkID = src[i].chunkID
+		mr := &mergeReader{src[i], nil}
+		mr.curr, err = src[i].next()
 		if err != nil {
 			logger.Errorf("%s", err.Error())
 			return nil, err
@@ -113,6 +112,13 @@ func merge(src []*hintFileReader, dst string, ct *CollisionTable, hintState *int
 		if src[i].datasize > datasize {
 			datasize = src[i].datasize
 		}
+		if mr.curr == nil {
+			// a hint file without items contributes nothing
+			src[i].close()
+			continue
+		}
+		mr.curr.Pos.ChunkID = src[i].chunkID
+		hp = append(hp, mr)
 	}
 	var w *hintFileWriter
 	if !Conf.NoMerged && !forGC {
